@@ -59,7 +59,7 @@ try:
     print("  patched output:", out_pat.strip()[-300:])
     if a.suite:
         xml = os.path.join(tmp, "junit.xml")
-        e = dict(os.environ, PYTHONPATH=patched, PYTHONDONTWRITEBYTECODE="1", MPLBACKEND="Agg", OMP_NUM_THREADS="2", MKL_NUM_THREADS="2")
+        e = dict(os.environ, PYTHONPATH=patched, PYTHONDONTWRITEBYTECODE="1", MPLBACKEND="Agg", OMP_NUM_THREADS="1", MKL_NUM_THREADS="1", OPENBLAS_NUM_THREADS="1")
         e.pop("FURADNIK_INCOMPLETECOOPERATIVE_VERIF", None)
         t0 = time.time()
         r = subprocess.run(["/venv/bin/python", "-m", "pytest", "-ra", "-q", "-p", "no:cacheprovider", "--timeout=900",
